@@ -321,6 +321,10 @@ func (fe *FuncEnc) loopNames(f *Frame, li *loopInfo, phiVal func(*ssa.Phi) Term,
 		if nx, ok := in.(*ssa.Next); ok {
 			if info := f.mapRange[nx.Iter]; info != nil {
 				m["pos"] = TV{fe.comp(st, "RN_"+info.visComp, SInt), types.Typ[types.Int]}
+				if !info.isStr {
+					ks := fe.eng.sorts.sortOf(info.mapType.Key())
+					m["visited"] = TV{fe.comp(st, "RV_"+info.visComp, arrSort(ks, SBool)), nil}
+				}
 			}
 		}
 	}
@@ -1104,6 +1108,7 @@ func (fe *FuncEnc) doRange(f *Frame, x *ssa.Range, st *State, path Term) {
 	info := &mapRangeInfo{visComp: id}
 	switch t := x.X.Type().Underlying().(type) {
 	case *types.Map:
+		fe.nondetMapRange(f, x, path)
 		info.m = fe.val(x.X)
 		info.mapType = t
 		ks := fe.eng.sorts.sortOf(t.Key())
